@@ -377,6 +377,47 @@ example : (simplify (α := α) uSpec [(.known .px, 1), (.known .inch, 1)]).1 = [
 example : (simplify (α := α) uSpec [(.known .px, 1), (.known .inch, -1)]).1 = [] := rfl
 example : (simplify (α := α) uSpec [(.known .px, 1), (.known .em, -1)]).1 = [(.known .px, 1), (.known .em, -1)] := rfl
 
+/-- a set in normal form is a fixed point of `simplify`, with factor 1 -/
+theorem simplify_of_normal_form (q : UQuirks) (s : UnitSet) (h0 : ∀ x ∈ s, x.2 ≠ 0)
+    (hp : s.Pairwise fun a b => conv q a.1 b.1 = false) :
+    simplify (α := α) q s = (s, ofNat 1) := by
+  have hp' : s.Pairwise fun a b => conv q b.1 a.1 = false :=
+    List.Pairwise.imp (fun {a b} h => by rw [conv_symm]; exact h) hp
+  simp only [simplify, simpLoop_id q s.length s (ofNat 1) hp', dropZero_id s h0]
+
+/-- `simplify_idempotent`: simplifying a simplified set changes nothing and scales by 1 -/
+theorem simplify_idempotent (q : UQuirks) (s : UnitSet) :
+    simplify (α := α) q (simplify (α := α) q s).1 = ((simplify (α := α) q s).1, ofNat 1) :=
+  simplify_of_normal_form q _ (simplify_normal_form (α := α) q s).1 (simplify_normal_form (α := α) q s).2
+
+/-! ### `+` and `-` never change the unit set -/
+
+/-- the result of `+`/`-` carries the left operand's unit set unchanged (no simplification,
+no conversion of the left side); only a unitless left operand takes the right one's. -/
+theorem addSub_result_unit (q : UQuirks) (f : α → α → α) (a b n : Numeric α)
+    (h : numAddSub q f a b = .num n) :
+    n.u = a.u ∨ (isNone a.u = true ∧ n.u = b.u) := by
+  unfold numAddSub at h
+  split at h
+  · injection h with h; left; rw [← h]
+  · split at h
+    · next hn => injection h with h; right; exact ⟨hn, by rw [← h]⟩
+    · split at h
+      · injection h with h; left; rw [← h]
+      · split at h <;> cases h
+
+theorem add_result_unit (q : UQuirks) (a b n : Numeric α) (h : numAdd q a b = .num n)
+    (ha : isNone a.u = false) : n.u = a.u := by
+  rcases addSub_result_unit q add a b n h with h1 | ⟨h2, _⟩
+  · exact h1
+  · rw [ha] at h2; cases h2
+
+theorem sub_result_unit (q : UQuirks) (a b n : Numeric α) (h : numSub q a b = .num n)
+    (ha : isNone a.u = false) : n.u = a.u := by
+  rcases addSub_result_unit q sub a b n h with h1 | ⟨h2, _⟩
+  · exact h1
+  · rw [ha] at h2; cases h2
+
 /-! ### quantity preservation (exact arithmetic: any field of characteristic 0) -/
 
 section field
